@@ -105,7 +105,7 @@ class Servers:
             if cand:
                 v = self.rng.choice(cand)
                 # a volume that arrives full (e.g. moved here) is at the limit from its first report on
-                s[v] = {"ro": False, "big": self.growing and self.rng.random() < 0.5, "rem": False}
+                s[v] = {"ro": self.growing and self.rng.random() < 0.3, "big": self.growing and self.rng.random() < 0.5, "rem": False}
                 self.pend[n].append({"ev": "inc", "n": n, "newv": [v], "delv": []})
         elif r < 0.45:
             if s:
@@ -194,6 +194,57 @@ def random_histories(rng, count, length, race_share=0.2):
     return out
 
 
+def scenario_histories(rng, count):
+    """G4b: directed shapes around the size limit (inputs only): a replica is registered at the limit while a
+    read-only replica is in the location list (for a single copy volume: the same replica), later the read-only
+    flag is cleared by a full heartbeat with the size unchanged; noise messages in between; then the size check."""
+    out = []
+    for _ in range(count):
+        asmin = rng.random() < 0.2
+        reset = {"ev": "reset", "limit": LIMIT, "min": asmin, "nodes": NODES4[:3], "vols": VOLS4, "vecs": ECS2,
+                 "types": DTS, "wishes": ["", "d1"]}
+        a, b = rng.sample(["n1", "n2", "n3"], 2)
+        mx = [["", 5], ["ssd", 3]]
+
+        def full(n, vols):
+            return {"ev": "full", "n": n, "mfk": 0, "max": mx,
+                    "vols": [{"id": i, "ro": ro, "big": big, "rem": False} for (i, ro, big) in vols]}
+
+        def noise(n, vols):
+            r = rng.random()
+            if r < 0.3:
+                return [{"ev": "ecfull", "n": n, "ecs": []}]
+            if r < 0.5:
+                return [full(n, vols)]
+            return []
+        single = rng.random() < 0.5
+        ops = []
+        if single:
+            v = 1          # replication 000: registered read-only AND at the limit in one heartbeat
+            other = rng.choice([[], [(4, False, False)]])
+            st = [(v, True, True)] + other
+            ops += [full(a, st), {"ev": "ecfull", "n": a, "ecs": []}] + noise(a, st)
+            st = [(v, False, True)] + other
+            ops += [full(a, st)] + noise(a, st)
+        else:
+            v = rng.choice([2, 4])   # two copies: one replica read-only while the other registers at the limit
+            big_first = rng.random() < 0.3
+            sa, sb = [(v, True, big_first)], [(v, False, True)]
+            ops += [full(a, sa), {"ev": "ecfull", "n": a, "ecs": []}] + noise(a, sa)
+            if rng.random() < 0.5:
+                ops += [full(b, sb), {"ev": "ecfull", "n": b, "ecs": []}]
+            else:          # the second replica arrives through a delta first, the full heartbeat follows
+                ops += [full(b, []), {"ev": "ecfull", "n": b, "ecs": []}, {"ev": "inc", "n": b, "newv": [v], "delv": []},
+                        full(b, sb)]
+            ops += noise(b, sb)
+            sa = [(v, False, big_first)]
+            ops += [full(a, sa)] + noise(a, sa) + noise(b, sb)
+        if rng.random() < 0.5:
+            ops.append({"ev": "collect"})
+        out.append((reset, ops))
+    return out
+
+
 def write_script(path, execs):
     with open(path, "w") as f:
         for reset, ops in execs:
@@ -252,6 +303,8 @@ def run_prop(ctx, prop):
         ctx.notes["model_histories"] = len(execs)
         # 4. G4: long random histories over 2-4 servers in 2 data centers / 3 racks, 4 volumes on 2 disk types
         execs += random_histories(rng, 800 if ctx.thorough else 150, 20 if ctx.thorough else 14)
+        # 5. G4b: directed histories around read-only + size limit at registration
+        execs += scenario_histories(rng, 400 if ctx.thorough else 40)
         script = os.path.join(ctx.out, "script.ndjson")
         write_script(script, execs)
     else:
@@ -291,7 +344,9 @@ def run_prop(ctx, prop):
                 "G3 random behaviours of a larger layer-B instance (2 servers, 2 volumes, 2 ec volumes, all flags; stale / "
                 "reordered deltas, reconnects) + seeded random server walks (2-4 servers, 2 data centers, 3 racks, 4 volumes "
                 "with replication 000/001/010/100 on 2 disk types, 2 ec volumes, max-count changes, a quarter with tiering "
-                "(remote flag flips, deletes), a fifth with a server re-dialling before the master dropped its old stream); "
+                "(remote flag flips, deletes), a quarter with volumes arriving / growing to the size limit, a fifth with a server "
+                "re-dialling before the master dropped its old stream) + directed histories (a replica registered at the size limit "
+                "while a read-only replica is listed, read-only cleared later); "
                 "after every event the driver records ToTopologyInfo, the usage counters and AvailableSpaceFor of every "
                 "level, Lookup of every id, the writable lists and PickForWrite per volume class; non-trivial = contains an "
                 "incremental message or a disconnect and >= 3 events; distinct by hash of the recorded execution")
